@@ -7,6 +7,7 @@ COMPONENTS = {
     "mask": "comp_ops:Mask",
     "des": "comp_ops:Des",
     "variant": "comp_ops:Variant",
+    "surv": "comp_surv",
 }
 
 TRUSTED_BASE = [
@@ -22,6 +23,13 @@ OPS_RULE = ("structured random cases from one PRNG seeded by VERIF_SEED: zero-wi
             "gamma in {None, 1e-4, 1, 1.9, random}, CR in {0, 1, grid, random}, six selections x 1..3 differences x {bin, exp} "
             "x four repairs (+ unbounded), with/without PM, both calling conventions; distinct = hash of (config, inputs, "
             "outputs); non-trivial = ")
+
+SURV_RULE = ("populations of 1..16 individuals, 1..5 objectives (grid-valued tie-rich, continuous, simplex-like, one constant "
+             "objective, injected duplicates), 0..2 inequality and 0..1 equality constraints (all-feasible / mixed / "
+             "all-infeasible / integer-valued violations), n_survive in 1..n, None or > n, five crowding metrics (compiled "
+             "pcd only with 2 objectives in-process), RankAndCrowding and ConstrRankAndCrowding; library calls (NDS, "
+             "crowding, randomized_argsort, split_by_feasibility) recorded and their contracts evaluated by the Lean "
+             "driver; distinct = hash of (config, inputs, outputs); non-trivial = a front was split or feasibility is mixed")
 
 PROPERTIES = {
     "C01": {
@@ -55,5 +63,25 @@ PROPERTIES = {
         "rule": OPS_RULE + "every mutant coordinate differs from the target's so the mask is observable (dex)",
         "explanation": "theorems trial_coord_cases, forceOne_any, bin_cr_one, bin_cr_zero_exactly_one, exp_cr_one, exp_cr_zero, expRow_block; correspondence: masks and trials bit-equal to the model on the recorded draws",
         "assumptions": ["draws in [0,1)"],
+    },
+    "C03": {
+        "components": [("surv", 1200, 40000)],
+        "rule": SURV_RULE,
+        "explanation": "theorems frontLoop_length / _nodup / _subset, survivalDo_unconstrained, survivalDo_constrained (C16.constr_length for the constrained class): exactly min(n_survive, n) distinct positions of the input; correspondence: survivor identity list and rank attributes equal the model's; object identity and X/F/G/H snapshots checked on the real objects",
+        "assumptions": ["oracle contracts (IsFronts, argsort permutation, feasibility partition) hold - evaluated on every record"],
+    },
+    "C04": {
+        "components": [("surv", 1200, 40000)],
+        "gen_args": {"surv": {"classes": ("rnc",)}},
+        "rule": SURV_RULE,
+        "explanation": "theorems frontLoop_rank_respect, first_front_kept, dom_rank_lt, no_discarded_dominates_survivor, isFronts_unique, feasible_first, infeasible_by_cv, rankOf_eq; correspondence as C03; the NDS result is checked against the exact peeling characterisation of fronts on every record",
+        "assumptions": ["oracle contracts hold - evaluated on every record"],
+    },
+    "C16": {
+        "components": [("surv", 1200, 40000)],
+        "gen_args": {"surv": {"classes": ("constr",)}},
+        "rule": SURV_RULE,
+        "explanation": "theorems fillLoop_eq_frontLoop, unconstrained_eq_rnc, feasible_part_eq_rnc, feasible_before_infeasible, fill_rank_respect, last_front_cut_by_cv, constr_length; correspondence: survivors equal the model's given the recorded oracles, the violation-space NDS is checked against IsFronts on [max(G,0), |H|] recomputed by the model; the oracle re-runs RankAndCrowding under the same seed",
+        "assumptions": ["oracle contracts hold - evaluated on every record"],
     },
 }
